@@ -49,6 +49,8 @@ BROKEN_OBJECT = ("reject_unchanged", "state_unreadable", "index_consistent", "ev
 # genuine defect of the unchanged tree found by this check (signature for known_findings.json)
 F31 = ("F31 Triangulation.bowyer_watson drops the flat simplex over a cavity facet that is coplanar with the new point "
        "and shared with a surviving simplex; the hanging facet makes later insertions overlap")
+F33 = ("F33 a vertex attached only by sliver simplices (a point within 1e-7 of a hull facet in barycentric terms) loses its "
+       "last simplex when that sliver is deleted and its flat replacements are suppressed: the vertex belongs to no simplex")
 F32 = ("F32 Triangulation.point_in_cicumcircle: the (1+1e-8) tolerance puts a simplex into the cavity although the new "
        "point is outside its circumsphere; under strongly anisotropic transforms the cavity is not star-shaped and "
        "the new simplices overlap")
@@ -59,6 +61,14 @@ FRAGILE = {"circ": 1e-11, "orient": 1e-9, "flat": 1e-3, "reduce": 1e-11, "locate
 # ---------------------------------------------------------------------------
 def simp(s):
     return tuple(int(i) for i in s)
+
+
+def rel_volume(pts):
+    """the code's flatness measure, exactly: volume / (mean |edge vector entries|) ** dim"""
+    d = len(pts) - 1
+    vecs = [X.sub(q, pts[0]) for q in pts[1:]]
+    avg = sum(abs(x) for row in vecs for x in row) / (d * d)
+    return X.volume(pts) / avg ** d if avg else Fr(0)
 
 
 def nondegenerate(tri):
@@ -229,7 +239,9 @@ class Oracle:
     def err(self, clause, msg, step):
         self.raw.append((clause, step))
         if clause in GEOMETRIC:
-            if self.fragile or self.near_degenerate:
+            # "every point is a vertex of some simplex" is not qualified by the sliver tolerance: after a gap
+            # insertion it is reported (as F33 when its trigger is met, see _after_step), never discarded
+            if self.fragile or (self.near_degenerate and clause != "every_point_a_vertex"):
                 # decisions with a tiny exact margin / a point placed 2e-8 outside a facet: the regime of the
                 # documented 1e-8 tolerances, never reported (counted)
                 self.would_fail_fragile += 1
@@ -345,6 +357,15 @@ class Oracle:
             self.note_hanging(tri, rec, step)
         if out != "Broken":
             for clause, msg in X.structure_errors(tri):
+                if clause == "every_point_a_vertex" and self.near_degenerate and not self.fragile \
+                        and self.hanging is None and self.tolerated is None:
+                    v = int(msg.split()[1])
+                    held = sorted(simp(x) for x in before[2][v]) if v < len(before[2]) else []
+                    if held and all(rel_volume([X.fr_point(before[0][i]) for i in x]) < Fr(1, 10 ** 7) for x in held):
+                        self.errors.append((F33, f"{msg}; before this insertion it was attached only by the sliver simplices "
+                                                 f"{held} (relative volume < 1e-7)", step))
+                        self.raw.append((clause, step))
+                        continue
                 self.err(clause, msg, step)
         if out == "Accepted":
             dl, ad = {simp(s) for s in ret[0]}, {simp(s) for s in ret[1]}
